@@ -100,6 +100,10 @@ def cases(rng, tier):
                     for c2 in CURVES:
                         if c2 != crv and (tier != "quick" or zp is None):
                             out.append({"t": "rt_compact", "alg": alg, "enc": enc, "zip": zp, "crv": c2, "pt": b64e(pt), "apu": b64e(b"Alice"), "apv": b64e(b"Bob")})
+    # header members with text outside ASCII (kid, cty, a private member): "exactly the original plaintext and headers"
+    for alg, enc in (("dir", "A128GCM"), ("A128KW", "A128CBC-HS256"), ("RSA-OAEP", "A256GCM"), ("ECDH-ES", "A128GCM"), ("A128GCMKW", "A256CBC-HS512")):
+        for extra in ({"kid": "clé-✓"}, {"cty": "téxt"}, {"kid": "k1", "x-note": "ключ"}):
+            out.append({"t": "rt_compact", "alg": alg, "enc": enc, "zip": None, "crv": "P-256", "pt": b64e(b"plaintext"), "hdr_extra": extra})
     # compression of large plaintexts (DEF has no size limit in RFC 7516)
     for alg, enc in (("dir", "A128GCM"), ("A128KW", "A128CBC-HS256")):
         out.append({"t": "rt_compact", "alg": alg, "enc": enc, "zip": "DEF", "crv": "P-256", "big": 300_000})
@@ -171,6 +175,7 @@ def run_rt_compact(c):
     for k in ("apu", "apv"):
         if c.get(k):
             hdr[k] = c[k]
+    hdr.update(c.get("hdr_extra") or {})
     jwe = _jwe()
     out = {}
     tok = jwe.serialize_compact(dict(hdr), pt, ae).decode()
@@ -559,6 +564,14 @@ def run_wrongsize(c):
             continue
         r2 = _try(lambda: jwe.deserialize_compact(r["ok"], k))
         res.append([n, "encrypted+decrypted" if "ok" in r2 else "encrypted"])
+    # the same for keys given as text: the key is the octets of the text, white space included
+    for label, k in (("text+newline", "A" * need + "\n"), ("space+text", " " + "A" * need), ("text+crlf", "A" * need + "\r\n"), ("tab+text+space", "\t" + "A" * need + " ")):
+        r = _try(lambda: jwe.serialize_compact({"alg": alg, "enc": enc}, b"plaintext", k))
+        if "error" in r:
+            res.append([f"{len(k)} ({label})", "refused"])
+            continue
+        r2 = _try(lambda: jwe.deserialize_compact(r["ok"], k))
+        res.append([f"{len(k)} ({label})", "encrypted+decrypted" if "ok" in r2 else "encrypted"])
     return {"need": need, "sizes": res}
 
 
